@@ -167,6 +167,9 @@ C("With/non-modifier", "with ext(x):\n    z = 1\nreturn x", "with ext(y):\n    z
 C("AsyncWith", "async def g() -> int:\n    async with ext(1):\n        pass\n    return 1\nreturn x", "async def g() -> int:\n    async with ext(2):\n        pass\n    return 1\nreturn x")
 C("Match", "match x:\n    case 1:\n        z = 1\n    case _:\n        z = 2\nreturn z", "match x:\n    case 2:\n        z = 1\n    case _:\n        z = 2\nreturn z")
 C("match_case.guard", "match x:\n    case 1 if b:\n        z = 1\n    case _:\n        z = 2\nreturn z", "match x:\n    case 1:\n        z = 1\n    case _:\n        z = 2\nreturn z")
+C("Match/patterns-seq-star", "match (x, y):\n    case [1, *rest]:\n        z = 1\n    case _:\n        z = 2\nreturn z", "match (x, y):\n    case [2, *rest]:\n        z = 1\n    case _:\n        z = 2\nreturn z")
+C("Match/patterns-class-or-singleton", "match b:\n    case True | None:\n        z = 1\n    case S(a=1):\n        z = 3\n    case _:\n        z = 2\nreturn z", "match b:\n    case False | None:\n        z = 1\n    case S(a=1):\n        z = 3\n    case _:\n        z = 2\nreturn z")
+C("Match/patterns-mapping-as", "match x:\n    case {1: v, **rest}:\n        z = 1\n    case _ as w:\n        z = 2\nreturn z", "match x:\n    case {2: v, **rest}:\n        z = 1\n    case _ as w:\n        z = 2\nreturn z")
 C("Raise.exc", "if b:\n    raise ValueError\nreturn x", "if b:\n    raise TypeError\nreturn x")
 C("Raise.cause", "if b:\n    raise ValueError from None\nreturn x", "if b:\n    raise ValueError\nreturn x")
 C("Raise/bare", "if b:\n    raise\nreturn x", "if b:\n    pass\nreturn x")
@@ -337,3 +340,81 @@ def ast_diff(sa, sb):
 
 def node_kinds(src):
     return sorted({type(n).__name__ for n in ast.walk(ast.parse(src))})
+
+
+# ------------------------------------------------------------------ matrix emission
+# (run under the interpreter that runs guppylang: the driver's Python may be older than the
+#  syntax used in some cases)
+CONTEXTS = {
+    "plain": None,
+    "if": "if b:\n{body}\nreturn x",
+    "else": "if b:\n    pass\nelse:\n{body}\nreturn x",
+    "loop": "for _i in range(2):\n{body}\nreturn x",
+    "nested": "def inner(x: int, y: int, b: bool) -> int:\n{body}\n    return x\nreturn inner(x, y, b)",
+}
+
+
+def wrap(body, context):
+    if context == "plain":
+        return body
+    return CONTEXTS[context].replace("{body}", textwrap.indent(textwrap.dedent(body).strip("\n"), "    "))
+
+
+def main_nodes(src):
+    """All nodes inside `main` except the function node itself (its decorator is @guppy) and the
+    arguments of comptime()/py() (evaluated by CPython)."""
+    out = []
+
+    def go(n):
+        out.append(n)
+        if isinstance(n, ast.Call) and isinstance(n.func, ast.Name) and n.func.id in ("comptime", "py"):
+            return
+        for c in ast.iter_child_nodes(n):
+            go(c)
+    for f in ast.parse(src).body:
+        if isinstance(f, (ast.FunctionDef, ast.AsyncFunctionDef)) and f.name == "main":
+            out.append(f.args)
+            for part in [f.args, *f.body, *([f.returns] if f.returns else [])]:
+                go(part)
+            if isinstance(f, ast.AsyncFunctionDef):
+                out.append(f)
+    return out
+
+
+def summary(src):
+    """-> (kinds, present): node kinds in main; (kind, field) pairs with a non-empty value"""
+    kinds, present = set(), set()
+    for n in main_nodes(src):
+        k = type(n).__name__
+        kinds.add(k)
+        for f in n._fields:
+            if getattr(n, f, None) not in (None, [], 0):
+                present.add(f"{k}.{f}")
+    return sorted(kinds), sorted(present)
+
+
+def emit(contexts):
+    out = []
+    for c in CASES:
+        for cx in contexts:
+            if cx != "plain" and c["frame"] is not MAIN:
+                continue
+            cc = dict(c)
+            cc["a"], cc["b"] = wrap(c["a"], cx), wrap(c["b"], cx)
+            sa, sb = build(cc)
+            try:
+                d = ast_diff(sa, sb)
+                ka, pa = summary(sa)
+                kb, pb = summary(sb)
+            except SyntaxError as e:
+                out.append({"id": c["id"], "context": cx, "syntax_error": str(e)})
+                continue
+            out.append({"id": c["id"], "context": cx, "exp": c["exp"], "a": sa, "b": sb, "note": c["note"],
+                        "diff": list(d) if d else None, "kinds_a": ka, "kinds_b": kb, "present_a": pa, "present_b": pb})
+    return out
+
+
+if __name__ == "__main__":
+    import json
+    import sys
+    json.dump(emit(sys.argv[1:] or ["plain"]), sys.stdout)
